@@ -9,8 +9,22 @@ static CALLS: Mutex<Vec<Value>> = Mutex::new(Vec::new());
 fn calls() -> std::sync::MutexGuard<'static, Vec<Value>> {
     CALLS.lock().unwrap_or_else(|e| e.into_inner())
 }
+static TICKS: std::sync::atomic::AtomicI64 = std::sync::atomic::AtomicI64::new(0);
 pub fn reset() {
     calls().clear();
+    TICKS.store(0, std::sync::atomic::Ordering::SeqCst);
+}
+/// capture mode: a closure operand bumps the caller's local it captured by reference, and the global count
+pub fn tick(c: &std::cell::Cell<i64>) {
+    c.set(c.get() + 1);
+    TICKS.fetch_add(1, std::sync::atomic::Ordering::SeqCst);
+}
+/// every tick must have reached the caller's own local
+pub fn same_ticks(c: &std::cell::Cell<i64>) {
+    let g = TICKS.load(std::sync::atomic::Ordering::SeqCst);
+    if c.get() != g {
+        panic!("closure operands updated a copy of the local they capture by reference: local sees {} of {} calls", c.get(), g);
+    }
 }
 pub fn take_calls() -> Vec<Value> {
     std::mem::take(&mut *calls())
